@@ -31,6 +31,10 @@ theorem naming_module_name : @Generated.Funcs.naming_module_name = @Pinned.Funcs
 theorem new_naming_versioned_module_name : @Generated.Funcs.new_naming_versioned_module_name = @Pinned.Funcs.new_naming_versioned_module_name := rfl
 theorem old_naming_versioned_module_name : @Generated.Funcs.old_naming_versioned_module_name = @Pinned.Funcs.old_naming_versioned_module_name := rfl
 theorem metadata_doc : @Generated.Funcs.metadata_doc = @Pinned.Funcs.metadata_doc := rfl
+theorem field_name : @Generated.Funcs.field_name = @Pinned.Funcs.field_name := rfl
+theorem method_void : @Generated.Funcs.method_void = @Pinned.Funcs.method_void := rfl
+theorem service_client_package_version : @Generated.Funcs.service_client_package_version = @Pinned.Funcs.service_client_package_version := rfl
+theorem service_client_package_version_ok : @Generated.Funcs.service_client_package_version_ok = @Pinned.Funcs.service_client_package_version_ok := rfl
 theorem import_str : @Generated.Funcs.import_str = @Pinned.Funcs.import_str := rfl
 theorem service_shortname : @Generated.Funcs.service_shortname = @Pinned.Funcs.service_shortname := rfl
 theorem naming_long_name : @Generated.Funcs.naming_long_name = @Pinned.Funcs.naming_long_name := rfl
